@@ -1,4 +1,4 @@
 From Coq Require Import List Arith.
 From BQ Require Import rt.Crash.
 From Coq Require Extraction ExtrOcamlBasic.
-Extraction "crash_model.ml" init step run quiescent all_down variant wf_topo good_event recv_enabled kindof par.
+Extraction "crash_model.ml" init step run quiescent all_down variant wf_topo recv_enabled kindof par.
